@@ -21,7 +21,7 @@ def check(ctx):
     rows = R.run_kind(ctx, 'chains')
     R.compare(ctx, rows, proj_rel, 'C14 release of the source (chains with early terminators and cuts)', nontrivial=lambda c, gd: gd.get('trace', '-') != '-')
     rows = R.run_kind(ctx, 'cancel')
-    R.compare(ctx, rows, proj_all, 'C14 never-ending asynchronous source below each operator', nontrivial=lambda c, gd: True)
+    R.compare(ctx, rows, proj_all, 'C14 never-ending asynchronous source below each operator', nontrivial=lambda c, gd: True, recheck=2)
     for r in catalogue():
         if (r['Waits'] > 0 or r['RecvOutsideGo']) and r['Name'] in KNOWN_WAITING:
             ctx.known.append(f"op={r['Name']} shape=blocks-in-subscribe: the subscribe function waits for its source ({r['File']}:{r['Line']}); Subscribe does not return when downstream ends early over a never-ending source")
